@@ -146,6 +146,9 @@ pub struct FieldLoc {
     pub width: usize,
     /// 0 = count / size / index / format like, 1 = other scalar, 2 = offset
     pub class: u8,
+    /// the table instance this field belongs to (records in arrays belong to their table) and its parent
+    pub inst: usize,
+    pub parent: usize,
 }
 
 fn scalar_info(v: &FieldType) -> Option<(usize, u64, bool)> {
@@ -202,6 +205,8 @@ struct Locator<'b> {
     lost_at: Vec<String>,
     resyncs: usize,
     visited: HashSet<(usize, String)>,
+    next_inst: usize,
+    inst_stack: Vec<usize>,
 }
 
 impl<'b> Locator<'b> {
@@ -243,7 +248,7 @@ impl<'b> Locator<'b> {
                 match self.verify(*pos, w, val) {
                     Some(p) => {
                         let class = if is_off { 2 } else if countish(name) { 0 } else { 1 };
-                        self.out.push(FieldLoc { table: self.table, path: format!("{path}.{name}"), pos: p, width: w, class });
+                        self.out.push(FieldLoc { table: self.table, path: format!("{path}.{name}"), pos: p, width: w, class, inst: *self.inst_stack.last().unwrap_or(&0), parent: if self.inst_stack.len() >= 2 { self.inst_stack[self.inst_stack.len() - 2] } else { 0 } });
                         *pos = p + w;
                     }
                     None => {
@@ -327,11 +332,14 @@ impl<'b> Locator<'b> {
         let mut pos = base;
         let mut lost = false;
         let p = format!("{path}/{}", t.type_name());
+        self.next_inst += 1;
+        self.inst_stack.push(self.next_inst);
         for i in 0..128 {
             if let Some(f) = t.get_field(i) {
                 self.value(&f.value, f.name, &mut pos, &mut lost, base, &p, depth);
             }
         }
+        self.inst_stack.pop();
     }
 }
 
@@ -344,7 +352,7 @@ pub fn locate(bytes: &[u8]) -> (Vec<FieldLoc>, Vec<String>, usize) {
     for (tag, t) in known_tables(&font) {
         let Ok(t) = t else { continue };
         let Some((_, off, len)) = dir.iter().find(|(g, _, _)| g == tag) else { continue };
-        let mut l = Locator { bytes, table: tag, lo: *off, hi: off + len, out: vec![], nodes: 0, lost_tables: 0, lost_at: vec![], resyncs: 0, visited: HashSet::new() };
+        let mut l = Locator { bytes, table: tag, lo: *off, hi: off + len, out: vec![], nodes: 0, lost_tables: 0, lost_at: vec![], resyncs: 0, visited: HashSet::new(), next_inst: 0, inst_stack: vec![] };
         l.table_at(&*t, *off, tag, 0);
         lost.extend(l.lost_at);
         resyncs += l.resyncs;
@@ -545,7 +553,7 @@ pub fn run(cfg: &Config, ex: &mut Explorer, corpus: &[(String, Vec<u8>)], synth:
 pub fn patch_mutants(p: &[u8]) -> Vec<(String, u64, Vec<u8>)> {
     use read_fonts::tables::ift::{GlyphKeyedPatch, GlyphPatches, TableKeyedPatch};
     use read_fonts::{FontData, FontRead, FontReadWithArgs};
-    let mut l = Locator { bytes: p, table: "patch", lo: 0, hi: p.len(), out: vec![], nodes: 0, lost_tables: 0, lost_at: vec![], resyncs: 0, visited: HashSet::new() };
+    let mut l = Locator { bytes: p, table: "patch", lo: 0, hi: p.len(), out: vec![], nodes: 0, lost_tables: 0, lost_at: vec![], resyncs: 0, visited: HashSet::new(), next_inst: 0, inst_stack: vec![] };
     if p.starts_with(b"ifgk") {
         if let Ok(t) = GlyphKeyedPatch::read(FontData::new(p)) {
             let flags = t.flags();
@@ -577,4 +585,136 @@ pub fn patch_mutants(p: &[u8]) -> Vec<(String, u64, Vec<u8>)> {
         }
     }
     out
+}
+
+
+// ------------------------------------------------------------- enum field x degenerate geometry (COLR / CPAL)
+
+fn last_name(path: &str) -> &str {
+    let n = path.rsplit('.').next().unwrap_or(path);
+    n.split('[').next().unwrap_or(n)
+}
+
+fn enum_like(f: &FieldLoc) -> bool {
+    let n = last_name(&f.path);
+    f.width <= 2 && f.class != 2 && (n.ends_with("extend") || n.contains("mode") || n.ends_with("format") || n.ends_with("type") || n.ends_with("types"))
+}
+
+fn put(b: &mut [u8], f: &FieldLoc, v: u64) {
+    let mut v = v;
+    for k in (0..f.width).rev() {
+        b[f.pos + k] = (v & 0xFF) as u8;
+        v >>= 8;
+    }
+}
+
+/// degenerate shapes of the numeric neighbours of an enum field: applied to the fields of one table instance
+const SHAPES: [&str; 9] = ["none", "zero", "equal-0x4000", "max", "0x7f..", "0x80..", "descending", "counts=0", "counts=1"];
+
+fn apply_shape(b: &mut [u8], fields: &[&FieldLoc], shape: &str) {
+    let mut k = 0u64;
+    for f in fields {
+        let n = last_name(&f.path);
+        let count_like = n.contains("count") || n.starts_with("num");
+        let bits = 8 * f.width as u32;
+        let max = if bits == 64 { u64::MAX } else { (1u64 << bits) - 1 };
+        match shape {
+            "counts=0" | "counts=1" => {
+                if count_like {
+                    put(b, f, if shape == "counts=0" { 0 } else { 1 });
+                }
+            }
+            _ if count_like => {}
+            "zero" => put(b, f, 0),
+            "equal-0x4000" => put(b, f, 0x4000 & max),
+            "max" => put(b, f, max),
+            "0x7f.." => put(b, f, max >> 1),
+            "0x80.." => put(b, f, (max >> 1) + 1),
+            "descending" => {
+                put(b, f, (0x7000u64.saturating_sub(k * 0x100)) & max);
+                k += 1;
+            }
+            _ => {}
+        }
+    }
+}
+
+struct EnumJob<'a> {
+    font: &'a str,
+    base: &'a [u8],
+    e: FieldLoc,
+    val: u64,
+    own: Vec<FieldLoc>,
+    parent: Vec<FieldLoc>,
+    own_shape: &'static str,
+    parent_shape: &'static str,
+}
+
+/// every enum-like byte / short field of COLR and CPAL swept over all its values IN COMBINATION with degenerate
+/// shapes of the numeric fields of the same table instance (colour stops all equal / descending / at +-2 /
+/// counts 0, 1 ...) and of the parent instance (gradient geometry, transforms, clip boxes), painted and
+/// bounding-boxed at default and non-default locations
+pub fn enum_geometry(cfg: &Config, ex: &mut Explorer, bases: &[(String, Vec<u8>)]) -> String {
+    let thorough = cfg.thorough();
+    let per_kind = if thorough { 6 } else { 1 };
+    let mut jobs: Vec<EnumJob> = vec![];
+    let (mut n_enum, mut n_kinds) = (0usize, 0usize);
+    for (name, bytes) in bases {
+        let Ok(font) = FontRef::new(bytes) else { continue };
+        if font.colr().is_err() {
+            continue;
+        }
+        let (fields, _, _) = match catch(|| locate(bytes)) {
+            Ok(x) => x,
+            Err(_) => continue,
+        };
+        let fields: Vec<FieldLoc> = fields.into_iter().filter(|f| f.table == "COLR" || f.table == "CPAL").collect();
+        let mut seen: std::collections::BTreeMap<String, usize> = Default::default();
+        for e in fields.iter().filter(|f| enum_like(f)) {
+            n_enum += 1;
+            let kind: String = e.path.chars().filter(|c| !c.is_ascii_digit()).collect();
+            let k = seen.entry(kind).or_insert(0);
+            if *k >= per_kind {
+                continue;
+            }
+            *k += 1;
+            let neighbours = |inst: usize| -> Vec<FieldLoc> { fields.iter().filter(|f| f.inst == inst && f.class != 2 && !enum_like(f) && f.pos != e.pos).take(64).cloned().collect() };
+            let own = neighbours(e.inst);
+            let parent = if e.parent != 0 { neighbours(e.parent) } else { vec![] };
+            let top: u64 = if e.width == 1 { 255 } else { 40 };
+            let mut all_vals: Vec<u64> = (0..=top).collect();
+            if e.width == 2 {
+                all_vals.extend([0x7FFF, 0x8000, 0xFFFE, 0xFFFF, 0x00FF, 0x0100]);
+            }
+            let few: Vec<u64> = all_vals.iter().copied().filter(|v| *v <= 12 || [31, 32, 33, 127, 128, 254, 255, 0x7FFF, 0x8000, 0xFFFF].contains(v)).collect();
+            for (oi, own_shape) in SHAPES.iter().enumerate() {
+                for parent_shape in ["none", "zero", "equal-0x4000", "max", "0x80.."] {
+                    if parent_shape != "none" && (parent.is_empty() || !(oi <= 2)) {
+                        continue;
+                    }
+                    // all values with the three most telling shapes, a reduced set with the others
+                    let full = parent_shape == "none" && oi <= 2;
+                    for v in if full { &all_vals } else { &few } {
+                        jobs.push(EnumJob { font: name, base: bytes, e: e.clone(), val: *v, own: own.clone(), parent: parent.clone(), own_shape, parent_shape });
+                    }
+                }
+            }
+        }
+        n_kinds += seen.len();
+    }
+    let n_jobs = jobs.len();
+    let done = parallel(&jobs, worker_threads(), |job, ex| {
+        let mut b = job.base.to_vec();
+        apply_shape(&mut b, &job.parent.iter().collect::<Vec<_>>(), job.parent_shape);
+        apply_shape(&mut b, &job.own.iter().collect::<Vec<_>>(), job.own_shape);
+        put(&mut b, &job.e, job.val);
+        if b == job.base {
+            return;
+        }
+        ex.count("enum-geometry:mutants");
+        let label = || format!("font={} mut=enum[{}@{}:u{}={}] own-fields({})={} parent-fields({})={}", job.font, job.e.path, job.e.pos, 8 * job.e.width, job.val, job.own.len(), job.own_shape, job.parent.len(), job.parent_shape);
+        exercise_groups(ex, &label, &b, true, Groups { color: true, ..Groups::NONE });
+    });
+    ex.absorb(done);
+    format!("enum x degenerate geometry (COLR/CPAL): {n_enum} enum-like fields of {n_kinds} kinds, {n_jobs} (value, own shape, parent shape) mutants")
 }
